@@ -37,6 +37,7 @@ int main(int argc, char **argv){
       expected++;
       if ((int) gs.size() <= expected) break;
       double r = 0; for (int j=0;j<dims;j++) r += gs[expected][j] * gs[expected][j];
+      if (r == tol * tol) fpsym_note("residual_equals_tolerance", 1);   // a class of its own: the documented rule stops when the residual is <= the tolerance, the tie included
       if (!(std::sqrt(r) > tol)) break;
     }
     fpsym_check(st.performed_iterations <= cap, "constant step: performed_iterations <= cap");
